@@ -139,6 +139,9 @@ def run(tier, seed, replay=None):
     ck.replayers["w.place"] = replay_dmd
     ck.replayers["r.place"] = replay_dmd
     ck.replayers["w.gen"] = replay_dmd
+    from checks import dmd_common
+    dmd_common.params_contract(ck)
+    ck.replayers["dmd."] = replay_dmd
     ck.discharge()
     nch = 1200 if tier == "thorough" else 120
     r = replay_py.run_driver("dmd_history.py", {"seed": seed, "channels": nch, "queries": 6, "max_failures": 3}, timeout=3000)
